@@ -1353,3 +1353,65 @@ where
         Ok(())
     }
 }
+
+/// Verification hooks (only with `--cfg apollo_rs_verif`): drive the crate-private depth guard and
+/// diagnostics sort from an external harness. Not used by the library itself.
+#[cfg(apollo_rs_verif)]
+pub(crate) mod verif {
+    use super::*;
+
+    /// Walk a nesting shape (`(` child `)` sibling …) the way validation walkers do, with one
+    /// `guard.increment()?` per nesting level. Returns `(value, high, limit reached)`.
+    pub(crate) fn depth_walk(limit: usize, start: usize, shape: &[u8]) -> (usize, usize, bool) {
+        fn walk(
+            shape: &[u8],
+            pos: &mut usize,
+            guard: &mut DepthGuard<'_>,
+        ) -> Result<(), RecursionLimitError> {
+            while shape.get(*pos) == Some(&b'(') {
+                *pos += 1;
+                {
+                    let mut nested = guard.increment()?;
+                    walk(shape, pos, &mut nested)?;
+                }
+                if shape.get(*pos) == Some(&b')') {
+                    *pos += 1;
+                }
+            }
+            Ok(())
+        }
+        let mut counter = DepthCounter::new().with_limit(limit);
+        counter.value = start;
+        counter.high = start;
+        let result = walk(shape, &mut 0, &mut counter.guard());
+        (counter.value, counter.high, result.is_err())
+    }
+
+    /// Sort diagnostics with the given `(file id, offset)` keys; returns the original indices in
+    /// sorted order.
+    pub(crate) fn sort_diagnostics(keys: &[Option<(u64, u32)>]) -> Vec<usize> {
+        let mut list = DiagnosticList::new(Default::default());
+        for (index, key) in keys.iter().enumerate() {
+            let location = key.and_then(|(file, offset)| {
+                Some(SourceSpan {
+                    file_id: crate::parser::FileId::verif_from_raw(file)?,
+                    text_range: rowan::TextRange::at(offset.into(), 0.into()),
+                })
+            });
+            list.push(
+                location,
+                Details::ParserLimit {
+                    message: index.to_string(),
+                },
+            );
+        }
+        list.sort();
+        list.diagnostics_data
+            .iter()
+            .map(|data| match &data.details {
+                Details::ParserLimit { message } => message.parse().unwrap(),
+                _ => unreachable!(),
+            })
+            .collect()
+    }
+}
